@@ -23,7 +23,7 @@ from hpstatic.interp import Interp, expr_term
 from hpstatic.loader import AnalysisError
 from hpstatic.poly import Canon
 from hpstatic.terms import (sym, intern, show, subterms, calls_in, kw, num, is_num,
-                            NONE, T)
+                            NONE, T, atoms_of)
 from hpstatic.weights import Weigher, ANY, NA, UNK, ZERO
 from .theories import all_configs, run_config, sink_calls, IFQ, TH
 from .common import THEORY
@@ -70,11 +70,97 @@ def run(check, prog):
     calculator_parity(check, prog, canon)
     phi_quadrature(check, prog)
     polarization_pins(check, prog)
+    pin_exact(check, prog)
+    # the Lens pupil integral sees the azimuthal dependence of the wrapped theory
+    from . import c08 as _c08, c09 as _c09
+    _c08.lens_nodes(check, prog)
+    # ... and the theory chosen by default must not change when the configuration is
+    # turned: the choice rests on counts, radii and pairwise distances only
+    _c09.cluster(check, prog)
     f2py_coordinate_roles(check, prog)
     # the polarisation angle reaches the integrands and the recombination with
     # one and the same sign (rule shared with C08)
     from . import c08
     c08.lens_wiring(check, prog)
+
+
+def pin_exact(check, prog):
+    """A theory that works for one polarisation only must refuse every other one:
+    its guard has to be the exact comparison of the transverse components with the
+    pinned vector.  A looser test (a tolerance, an absolute value, one component)
+    lets through polarisations for which the theory then returns the field of the
+    pinned one -- e.g. (-1, 0) would get the field of (1, 0), the negative of the
+    right answer, which is neither linear in the polarisation nor the sphere
+    limit."""
+    from hpstatic.interp import Interp
+    n = 0
+    for cq in prog.subclasses(THEORY):
+        c = prog.classes[cq]
+        for mname in ('raw_fields', 'raw_scat_matrs', 'raw_cross_sections'):
+            fd = c.methods.get(mname)
+            if fd is None:
+                continue
+            params = [a.arg for a in fd.args.args]
+            pol = [a for a in params if a in ('illum_polarization', 'pol', 'einc')]
+            if not pol:
+                continue
+            n += 1
+            P = sym(pol[0])
+            q = cq + '.' + mname
+            loc = prog.loc(cq, fd)
+            it = Interp(prog, max_depth=0)
+            res = it.analyze(q)
+            for o in res.raises:
+                for t, polarity in o.cond:
+                    if P not in atoms_of(t):
+                        continue
+                    lits = [x for x in subterms(t) if x[0] in ('list', 'tuple') and x[1]
+                            and all(y[0] == 'num' for y in x[1])]
+                    if not lits:
+                        continue
+
+                    def plain(x):
+                        # the polarisation's leading components, unconverted
+                        while True:
+                            if x[0] == 'call' and x[1] in ('numpy.array', 'numpy.asarray') \
+                                    and len(x[2]) == 1:
+                                x = x[2][0]
+                            elif x[0] == 'attr' and x[2] == 'values':
+                                x = x[1]
+                            elif x[0] == 'idx' and x[2][0] == 'slice':
+                                x = x[1]
+                            else:
+                                return x
+
+                    def lit(x):
+                        if x[0] == 'call' and x[1] in ('numpy.array', 'numpy.asarray') \
+                                and len(x[2]) == 1:
+                            x = x[2][0]
+                        return x in lits
+                    inner = t
+                    if inner[0] == 'call' and isinstance(inner[1], tuple) and \
+                            inner[1][0] == 'attr' and inner[1][2] == 'all' and not inner[2]:
+                        inner = inner[1][1]
+                    elif inner[0] == 'call' and inner[1] in ('numpy.all', 'all') and \
+                            len(inner[2]) == 1:
+                        inner = inner[2][0]
+                    exact = False
+                    if inner[0] == 'cmp' and inner[1] == '==':
+                        a, b = inner[2], inner[3]
+                        exact = (plain(a) == P and lit(b)) or (plain(b) == P and lit(a))
+                    elif inner[0] == 'call' and inner[1] == 'numpy.array_equal' and \
+                            len(inner[2]) == 2:
+                        a, b = inner[2]
+                        exact = (plain(a) == P and lit(b)) or (plain(b) == P and lit(a))
+                    check.require(exact and polarity is False, 'V-pin-exact',
+                                  '%s.%s' % (cq.rpartition('.')[2], mname),
+                                  'every polarisation other than the one the theory is '
+                                  'written for is refused', loc,
+                                  fail_detail='accepted when %s%s: a polarisation that '
+                                  'passes without being the pinned one gets the pinned '
+                                  'one\'s field' % ('' if not polarity else 'not ',
+                                                    show(t)[:120]))
+    check.floor('theory methods that take a polarisation', n, 4)
 
 
 # ----------------------------------------------------------------------
@@ -529,6 +615,19 @@ def polarization_pins(check, prog):
                     none_cmp = any(isinstance(s, ast.Constant) and s.value is None
                                    for s in sides)
                     if has_pol and has_lit and not none_cmp:
+                        pinned.append(' '.join(ast.unparse(node).split()))
+                if isinstance(node, ast.Call) and \
+                        ast.unparse(node.func).split('.')[-1] in (
+                            'allclose', 'isclose', 'array_equal', 'array_equiv') and \
+                        len(node.args) >= 2:
+                    src = [ast.unparse(a_) for a_ in node.args[:2]]
+                    has_pol = any('illum_polarization' in s_ or s_ in ('pol', 'einc')
+                                  for s_ in src)
+                    has_lit = any(isinstance(a_, (ast.List, ast.Tuple)) or
+                                  (isinstance(a_, ast.Call) and a_.args and
+                                   isinstance(a_.args[0], (ast.List, ast.Tuple)))
+                                  for a_ in node.args[:2])
+                    if has_pol and has_lit:
                         pinned.append(' '.join(ast.unparse(node).split()))
             construct = '%s.%s' % (short, mname)
             if pinned:
